@@ -9,6 +9,7 @@
 /* ini_line_alloc__int: calloc(1, sizeof(ini_line_t) + line size + 16), line size 0..LEN */
 #define C12_SZ_LO (64 + 16)
 #define C12_SZ_HI (64 + 16 + LEN)
+#define C12_SPEC_REALLOC_ITEMS
 #include "libc_stubs.h"
 #include "utils/buf_str.c"
 #include "utils/ini.c"
